@@ -722,7 +722,10 @@ func (c *c16) tailRec() {
 	}
 	// depth: a few fixed magnitudes plus a seeded one
 	depth := []int{1000, 100000, maxDepth / 4, maxDepth}[r.Choose(4, "depthClass")] + r.Choose(1000, "depthJitter")
-	prog := r.Choose(6, "prog")
+	prog := r.Choose(9, "prog")
+	if lim := map[bool]int{false: 300000, true: 2000000}[sim.Thorough]; prog >= 6 && depth > lim {
+		depth = lim + depth%1000 // the FoldRight programs materialise their input (and list cells are slow)
+	}
 	r.MixFingerprint(uint64(depth)<<4 | uint64(prog))
 	r.Fault("stack-limit-8MB")
 	sim.NoteCase(fmt.Sprintf("C16 tailrec prog=%d depth=%d", prog, depth))
@@ -783,6 +786,28 @@ func (c *c16) tailRec() {
 		}
 		got = even(depth).Get()
 		want = 1 - depth%2
+	case 6, 7, 8:
+		// FoldRight whose step hands the rest of the fold back unchanged (last / find style): the rest is a
+		// lazy.TailCall inside FoldRight, so the fold is a tail-recursive TailCall program over the input length
+		last := func(a int, rest lazy.Eval[int]) lazy.Eval[int] {
+			if a == depth-1 {
+				return lazy.Done(a % evMod)
+			}
+			return rest
+		}
+		want = (depth - 1) % evMod
+		switch prog {
+		case 6:
+			xs := make([]int, depth)
+			for i := range xs {
+				xs[i] = i
+			}
+			got = seq.FoldRight(fp.Seq[int](xs), -1, last).Get()
+		case 7:
+			got = iterator.FoldRight(iterator.Range(0, depth), -1, last).Get()
+		default:
+			got = list.FoldRight(list.Range(0, depth), -1, last).Get()
+		}
 	default: // tail call whose result is post-processed once (Map at the outside only)
 		var loop func(n, acc int) lazy.Eval[int]
 		loop = func(n, acc int) lazy.Eval[int] {
@@ -796,7 +821,7 @@ func (c *c16) tailRec() {
 	if got != want {
 		r.Violate("wrong-value", "tail-recursive program %d at depth %d returned %d, want %d", prog, depth, got, want)
 	}
-	// FoldRight chains (moderate depth, value check only: they are not tail recursive)
+	// FoldRight chains that post-process the rest with Map (moderate depth, value check only: those are not tail recursive)
 	m := 200 + r.Choose(800, "foldN")
 	xs := make([]int, m)
 	sum := 0
@@ -813,5 +838,62 @@ func (c *c16) tailRec() {
 	}
 	if v := list.FoldRight(list.Of(xs...), 0, add).Get(); v != sum {
 		r.Violate("wrong-value", "list.FoldRight over %d elements returned %d, want %d", m, v, sum)
+	}
+	// the deferred rest of a fold is a deferred computation like any other: asking the same fold twice, or using the
+	// rest twice inside one step, must neither change the value nor run a step (= pull the read-once source) again
+	n := 2 + r.Choose(11, "foldTwiceN")
+	ys := xs[:n]
+	twice := func(a int, rest lazy.Eval[int]) lazy.Eval[int] {
+		return lazy.Map2(rest, rest, func(x, y int) int { return (a + x + 2*y) % evMod })
+	}
+	wantTwice := 0
+	for i := n - 1; i >= 0; i-- {
+		wantTwice = (ys[i] + 3*wantTwice) % evMod
+	}
+	for variant := 0; variant < 2; variant++ {
+		step, want, what := add, n*(n-1)/2, "rest used once"
+		if variant == 1 {
+			step, want, what = twice, wantTwice, "rest used twice per step"
+		}
+		pulls, i := 0, 0
+		src := fp.MakeIterator(func() bool { return i < n }, func() int {
+			if i >= n {
+				panic("next on the exhausted source")
+			}
+			pulls++
+			v := ys[i]
+			i++
+			return v
+		})
+		folds := []struct {
+			name string
+			e    lazy.Eval[int]
+		}{
+			{"seq.FoldRight", seq.FoldRight(fp.Seq[int](ys), 0, step)},
+			{"iterator.FoldRight", iterator.FoldRight(src, 0, step)},
+			{"list.FoldRight", list.FoldRight(list.Of(ys...), 0, step)},
+		}
+		for _, f := range folds {
+			var v1, v2 int
+			var pan any
+			func() {
+				defer func() { pan = recover() }()
+				v1 = f.e.Get()
+				v2 = lazy.Run(f.e)
+			}()
+			r.Probe("folds-evaluated-twice")
+			if pan != nil {
+				r.Violate("fold-rerun", "%s over %v (%s): asking the same fold twice panicked: %v", f.name, ys, what, pan)
+				return
+			}
+			if v1 != want || v2 != want {
+				r.Violate("fold-rerun", "%s over %v (%s): first Get gives %d, second evaluation gives %d, strict evaluation gives %d", f.name, ys, what, v1, v2, want)
+				return
+			}
+		}
+		if pulls != n {
+			r.Violate("fold-rerun", "iterator.FoldRight over %d elements (%s, asked twice) pulled its read-once source %d times", n, what, pulls)
+			return
+		}
 	}
 }
